@@ -102,7 +102,7 @@ fn run(prop: &str, tier: &str, seed: u64) -> i32 {
         "C08" => {
             let (mut chk, agg) = m_search::run_c08(tier, seed);
             chk.rule.push_str(" || UCI level: `go depth N` combined with a time budget (movetime / clocks, either order) and after deeper searches of the same position, on the release and debug-assertions binaries; decided on the `info depth` lines of each go.");
-            with_part(chk, agg, "C08uci", tier, seed, &[("UCI-level depth-limited go commands judged", "uci_limited_gos_judged", 200), ("of which combined with a time budget", "uci_limited_gos_with_a_time_budget", 80)])
+            with_part(chk, agg, "C08uci", tier, seed, &[("UCI-level depth-limited go commands judged", "uci_limited_gos_judged", 200), ("of which combined with a time budget", "uci_limited_gos_with_a_time_budget", 80), ("UCI sessions on locked tiny positions (depth 50/64/255/infinite)", "uci_locked_tiny_sessions", 8)])
         }
         "C09" => m_search::run_c09(tier, seed),
         "C10" => {
